@@ -371,7 +371,8 @@ fn apply_ops(dec: &Dec, base: &[u8], ops: &[MutOp], fix_crc: bool) -> Vec<u8> {
             }
             MutOp::AppendEmpty { n } => {
                 // the deep-recursion sizes are reserved for the MT readers (36 bytes per member)
-                let n = if n > 3000 && !matches!(dec, Dec::LzipMt { .. } | Dec::Lzma2Mt { .. }) { n % 3000 } else { n };
+                // (and for the XZ reader with multi-stream decoding: streams without blocks)
+                let n = if n > 3000 && !matches!(dec, Dec::LzipMt { .. } | Dec::Lzma2Mt { .. } | Dec::Xz { multi: true }) { n % 3000 } else { n };
                 let unit: Vec<u8> = match dec {
                     Dec::Lzip | Dec::LzipMt { .. } => {
                         // an empty member: header + end marker stream + trailer (36 bytes)
@@ -393,6 +394,20 @@ fn apply_ops(dec: &Dec, base: &[u8], ops: &[MutOp], fix_crc: bool) -> Vec<u8> {
                     Dec::Lzma2 { .. } | Dec::Lzma2Mt { .. } => {
                         // an empty-ish LZMA2 unit: dictionary reset + 1 byte
                         vec![0x01, 0x00, 0x00, 0x41]
+                    }
+                    Dec::Xz { .. } => {
+                        // a stream without blocks: header, empty index, footer (32 bytes, check type CRC32)
+                        let mut u = b"\xFD7zXZ\0\0\x01".to_vec();
+                        let c = crc32(&u[6..8]);
+                        u.extend_from_slice(&c.to_le_bytes());
+                        let index = [0u8, 0, 0, 0];
+                        u.extend_from_slice(&index);
+                        u.extend_from_slice(&crc32(&index).to_le_bytes());
+                        let tail = [1u8, 0, 0, 0, 0, 1];
+                        u.extend_from_slice(&crc32(&tail).to_le_bytes());
+                        u.extend_from_slice(&tail);
+                        u.extend_from_slice(b"YZ");
+                        u
                     }
                     _ => vec![],
                 };
